@@ -261,6 +261,13 @@ struct Ticks
 // ---------------------------------------------------------------- driver main
 typedef void (*case_fn)(const Case&, Result&);
 
+// number of callback invocations (any driver, any callback object) with a value that is not one of the supplied samples
+inline std::atomic<long>& non_sample_calls()
+{
+    static std::atomic<long> n{0};
+    return n;
+}
+
 inline int driver_main(int argc, char** argv, case_fn fn, void (*install_tick)(void (*)(const char*)) = nullptr)
 {
     if (argc < 3)
@@ -298,8 +305,13 @@ inline int driver_main(int argc, char** argv, case_fn fn, void (*install_tick)(v
         if (t)
             alarm(t);
         Result r;
+        non_sample_calls().store(0);
         fn(c, r);
         alarm(0);
+        if (non_sample_calls().load() > 0)
+            r.violation("callback-invoked-with-a-non-sample",
+                        sf("%ld callback invocations with a value that is not one of the supplied samples (a position, or an element outside the range)",
+                           non_sample_calls().load()));
         r.num["ticks"] = (double)Ticks::count().load();
         fprintf(out, "RES %s %s\n", c.id().c_str(), r.json().c_str());
         fflush(out);
